@@ -27,6 +27,11 @@ class Undefined(Exception):
     """the run reads something the model gives no value to (an unwritten cell, an opaque value): nothing is concluded from this input"""
 
 
+class OutOfInput(Undefined):
+    """the run reads the input array outside its L elements: whatever happens then (IndexError, garbage) is not what a counter does that
+    stays inside"""
+
+
 def worlds():
     """the finite world, small inputs first"""
     base = (0.0, 1.0, 2.0, 3.0)
@@ -60,152 +65,271 @@ def _num(q):
     return int(q) if q.denominator == 1 else float(q)
 
 
-class Machine:
-    def __init__(self, ts, peaks):
-        self.ts = ts
-        self.peaks = list(peaks)
-        ex = ts.ex
-        self.env = {ex.params[1]: len(self.peaks)}
-        self.mem = {}
-        self.node = Y.START
-        self.by_src = {}
-        for t in ts.trans:
-            self.by_src.setdefault(t["src"], []).append(t)
+def _caff(a):
+    """Aff -> f(env) -> int"""
+    items = [(v, (int(c) if c.denominator == 1 else c)) for v, c in a.c.items()]
+    k = int(a.k) if a.k.denominator == 1 else a.k
+    exact = isinstance(k, int) and all(isinstance(c, int) for _, c in items)
 
-    def aff(self, a):
-        s = a.k
-        for v, c in a.c.items():
-            if v not in self.env:
-                raise Undefined(v)
-            s += c * self.env[v]
+    def f(env):
+        s = k
+        try:
+            for v, c in items:
+                s += c * env[v]
+        except KeyError as e:
+            raise Undefined(str(e))
+        if exact:
+            return s
         if s.denominator != 1:
             raise Undefined("fractional index")
         return int(s)
+    return f
 
-    def val(self, e):
-        k = e[0]
-        if k == "num":
-            return _num(e[1])
-        if k == "var":
-            if e[1] not in self.env:
-                raise Undefined(e[1])
-            return self.env[e[1]]
-        if k == "aff":
-            return self.aff(Aff(dict(e[1]), e[2]))
-        if k == "sel":
-            i = self.val(e[2])
-            if e[1] == "peaks":
-                if not 0 <= i < len(self.peaks):
-                    raise Undefined("input index out of range")
-                return self.peaks[i]
-            cell = self.mem.get(e[1], {}).get(i)
-            if cell is None:
-                raise Undefined(f"{e[1]}[{i}] is read before it is written")
-            return cell
-        if k == "bin":
-            a, b = self.val(e[2]), self.val(e[3])
-            op = e[1]
-            if op == "+":
-                return a + b
-            if op == "-":
-                return a - b
-            if op == "*":
-                return a * b
-            if op == "/":
-                if b == 0:
+
+def _comp(e):
+    """value of the IR -> f(env, mem, peaks)"""
+    k = e[0]
+    if k == "num":
+        c = _num(e[1])
+        return lambda env, mem, peaks: c
+    if k == "bool":
+        c = bool(e[1])
+        return lambda env, mem, peaks: c
+    if k == "var":
+        n = e[1]
+
+        def fv(env, mem, peaks):
+            try:
+                return env[n]
+            except KeyError:
+                raise Undefined(n)
+        return fv
+    if k == "aff":
+        fa = _caff(Aff(dict(e[1]), e[2]))
+        return lambda env, mem, peaks: fa(env)
+    if k == "sel":
+        fi = _comp(e[2])
+        base = e[1]
+        if base == "peaks":
+            def fp(env, mem, peaks):
+                i = fi(env, mem, peaks)
+                if not 0 <= i < len(peaks):
+                    raise OutOfInput(f"peaks[{i}] with {len(peaks)} elements")
+                return peaks[i]
+            return fp
+
+        def fs(env, mem, peaks):
+            i = fi(env, mem, peaks)
+            try:
+                return mem[base][i]
+            except KeyError:
+                raise Undefined(f"{base}[{i}] is read before it is written")
+        return fs
+    if k == "bin":
+        fa, fb, op = _comp(e[2]), _comp(e[3]), e[1]
+        if op == "+":
+            return lambda env, mem, peaks: fa(env, mem, peaks) + fb(env, mem, peaks)
+        if op == "-":
+            return lambda env, mem, peaks: fa(env, mem, peaks) - fb(env, mem, peaks)
+        if op == "*":
+            return lambda env, mem, peaks: fa(env, mem, peaks) * fb(env, mem, peaks)
+        if op == "/":
+            def fd(env, mem, peaks):
+                y = fb(env, mem, peaks)
+                if y == 0:
                     raise Undefined("division by zero")
-                return a / b
-            raise Undefined(op)
-        if k == "abs":
-            return abs(self.val(e[1]))
-        if k == "neg":
-            return -self.val(e[1])
-        if k == "bool":
-            return bool(e[1])
-        if k == "cmp":
-            a, b = self.val(e[2]), self.val(e[3])
-            return {"<": a < b, "<=": a <= b, ">": a > b, ">=": a >= b, "==": a == b, "!=": a != b}[e[1]]
-        if k == "not":
-            return not self.truth(self.val(e[1]))
-        if k == "truth":
-            return self.truth(self.val(e[1]))
-        if k == "ige":
-            return self.val(e[1]) >= 0
-        if k == "ieq":
-            return self.val(e[1]) == 0
-        raise Undefined(k)
+                return fa(env, mem, peaks) / y
+            return fd
+    if k == "abs":
+        fa = _comp(e[1])
+        return lambda env, mem, peaks: abs(fa(env, mem, peaks))
+    if k == "neg":
+        fa = _comp(e[1])
+        return lambda env, mem, peaks: -fa(env, mem, peaks)
+    if k == "cmp":
+        fa, fb, op = _comp(e[2]), _comp(e[3]), e[1]
+        if op == "<":
+            return lambda env, mem, peaks: fa(env, mem, peaks) < fb(env, mem, peaks)
+        if op == "<=":
+            return lambda env, mem, peaks: fa(env, mem, peaks) <= fb(env, mem, peaks)
+        if op == ">":
+            return lambda env, mem, peaks: fa(env, mem, peaks) > fb(env, mem, peaks)
+        if op == ">=":
+            return lambda env, mem, peaks: fa(env, mem, peaks) >= fb(env, mem, peaks)
+        if op == "==":
+            return lambda env, mem, peaks: fa(env, mem, peaks) == fb(env, mem, peaks)
+        if op == "!=":
+            return lambda env, mem, peaks: fa(env, mem, peaks) != fb(env, mem, peaks)
+    if k in ("not",):
+        fa = _comp(e[1])
+        return lambda env, mem, peaks: not fa(env, mem, peaks)          # nan is true, as in C and Python
+    if k == "truth":
+        fa = _comp(e[1])
+        return lambda env, mem, peaks: bool(fa(env, mem, peaks))
+    if k == "ige":
+        fa = _comp(e[1])
+        return lambda env, mem, peaks: fa(env, mem, peaks) >= 0
+    if k == "ieq":
+        fa = _comp(e[1])
+        return lambda env, mem, peaks: fa(env, mem, peaks) == 0
 
-    @staticmethod
-    def truth(v):
-        return bool(v)          # nan is true, as in C and Python
+    def bad(env, mem, peaks):
+        raise Undefined(str(k))
+    return bad
 
-    def step(self):
-        for t in self.by_src.get(self.node, []):
-            if all(self.truth(self.val(a)) == taken for a, taken in t["key"]):
-                env = dict(self.env)
-                for v, x in t["scal"].items():
-                    if x == ("unknown",):
-                        env.pop(v, None)
+
+class Prog:
+    """a transition system compiled for execution on concrete inputs"""
+
+    def __init__(self, ts):
+        self.ts = ts
+        self.Ln = ts.ex.params[1]
+        self.by_src = {}
+        self.length = {b: _caff(i["n"]) for b, i in ts.allocs.items() if i.get("n") is not None and not i.get("cols")}
+        self.outs = {b: (_caff(i["rows"]), i["cols"]) for b, i in ts.allocs.items() if i.get("cols")}
+        for t in ts.trans:
+            keys = [(_comp(a), taken) for a, taken in t["key"]]
+            scal = [(v, None if x == ("unknown",) else _comp(x)) for v, x in t["scal"].items()]
+            stores = [(b, _caff(i), _comp(x)) for b, st in t["arrays"].items() for i, x in st]
+            acc = [(b, _caff(i), rw) for b, i, rw in t["acc"]]
+            self.by_src.setdefault(t["src"], []).append((keys, scal, stores, acc, t))
+
+    def run(self, peaks, check=False, limit=400, bad=None):
+        """(last transition, env, mem, what went wrong in the sense of C05-R4 when `check`: appended to `bad`, also when the run is cut short)"""
+        peaks = list(peaks)
+        L = len(peaks)
+        env = {self.Ln: L}
+        mem = {}
+        node = Y.START
+        bad = [] if bad is None else bad
+        lens = {b: f(env) for b, f in self.length.items()} if check else {}
+        caps = {b: f(env) * c for b, (f, c) in self.outs.items()} if check else {}
+        for _ in range(limit):
+            for keys, scal, stores, acc, t in self.by_src.get(node, ()):
+                ok = True
+                for f, taken in keys:
+                    if bool(f(env, mem, peaks)) != taken:
+                        ok = False
+                        break
+                if not ok:
+                    continue
+                if check:
+                    for b, fi, rw in acc:
+                        n = L if b == "peaks" else lens.get(b)
+                        if n is not None:
+                            ix = fi(env)
+                            if not 0 <= ix < n:
+                                bad.append(("bounds", f"{t['src']} -> {t['dst']}: {'read' if rw == 'r' else 'write'} {b}[{ix}] with {n} elements"))
+                new = dict(env)
+                for v, f in scal:
+                    if f is None:
+                        new.pop(v, None)
                     else:
                         try:
-                            env[v] = self.val(x)
+                            new[v] = f(env, mem, peaks)
                         except Undefined:
-                            env.pop(v, None)          # a value that is not defined here only matters when something reads it
-                writes = []
-                for b, st in t["arrays"].items():
-                    for i, x in st:
-                        writes.append((b, self.aff(i), self.val(x)))
+                            new.pop(v, None)          # a value that is not defined here only matters when something reads it
+                writes = [(b, fi(env), fx(env, mem, peaks)) for b, fi, fx in stores]
                 for b, i, x in writes:
-                    self.mem.setdefault(b, {})[i] = x
-                self.env = env
-                self.node = t["dst"]
-                return t
-        raise Undefined(f"no transition of {self.node} applies")
-
-    def run(self, limit=400):
-        for _ in range(limit):
-            t = self.step()
-            if t["dst"] in (Y.END, Y.RAISE, Y.FAIL):
-                return t
+                    if check and b in caps:
+                        if not 0 <= i < caps[b]:
+                            bad.append(("rows", f"{t['src']} -> {t['dst']}: store {b}[{i}] in a table of {caps[b]} cells"))
+                        if b == "rf" and self.outs[b][1] == 3 and i % 3 == 2 and x not in (0.5, 1):
+                            bad.append(("rows", f"{t['src']} -> {t['dst']}: the count stored with a row is {x}"))
+                    mem.setdefault(b, {})[i] = x
+                env = new
+                node = t["dst"]
+                break
+            else:
+                raise Undefined(f"no transition of {node} applies")
+            if node in (Y.END, Y.RAISE, Y.FAIL):
+                return t, env, mem, bad
         raise Undefined("the run does not end")
 
 
-def result(ts, peaks, only=None):
-    """what the counter hands back for this input: ('tables', {role: [cells of the returned rows]}) | ('gives up', where); Undefined when the
-    model does not determine it"""
-    m = Machine(ts, peaks)
-    t = m.run()
-    if t["dst"] != Y.END:
-        return ("gives up", t["dst"])
+def prog(ts):
+    p = ts.__dict__.get("_c05prog")
+    if p is None:
+        p = ts.__dict__["_c05prog"] = Prog(ts)
+    return p
+
+
+def _returned(ts, t, env, mem):
+    """[(role, rows returned, cols, capacity)] of the value an END transition returns"""
     ret = t["ret"]
     vals = list(ret[2:]) if ret is not None and ret[0] == "obj" and ret[1] == "tuple" else [ret]
-    out = {}
+    out = []
     for v in vals:
         if v is None:
             raise Undefined("nothing is returned")
         if v[0] == "obj" and v[1] == "view":
-            role, stop = v[2], m.val(v[3])
-        elif v[0] == "ptr" and v[2] == Y.ZERO:
+            role, stop = v[2], _comp(v[3])(env, mem, ())
+        elif v[0] == "ptr" and v[2] == Y.ZERO and v[1] in ts.allocs:
             role = v[1]
-            stop = m.aff(ts.allocs[role]["rows"])
+            stop = _caff(ts.allocs[role]["rows"])(env)
         else:
             raise Undefined("returned value")
         info = ts.allocs.get(role)
         if info is None or not info.get("cols"):
             raise Undefined("returned value")
-        if only is not None and role not in only:
-            continue
-        cols = info["cols"]
-        cap = m.aff(info["rows"])
+        cap = _caff(info["rows"])(env)
+        if cap >= 0:
+            stop = max(cap + stop, 0) if stop < 0 else min(stop, cap)          # a[:stop] as Python / numpy read it
+        out.append((role, stop, info["cols"], cap))
+    return out
+
+
+def observe(ts, peaks):
+    """one run of the counter on one input: dict(res = ('tables', {role: (rows, cols, cells)}) | ('gives up', where) | ('undefined', why),
+    bad = [(category, text)] of what goes wrong in the sense of C05-R4:
+       'bounds'  an access outside the stack / the input,     'rows'  an output store outside the table, a count that is neither 0.5 nor 1,
+       'exit'    the returned rows are not exactly the rows written, counts that do not sum to (L - 1) / 2, tables of different height)"""
+    bad = []
+    try:
+        t, env, mem, bad = prog(ts).run(peaks, check=True, bad=bad)
+    except OutOfInput as e:
+        return dict(res=("gives up", f"reads the input outside its elements: {e}"), bad=bad + [("bounds", f"read {e}")])
+    except Undefined as e:
+        return dict(res=("undefined", str(e)), bad=bad + [("undefined", str(e))])
+    L = len(peaks)
+    if t["dst"] != Y.END:
+        return dict(res=("gives up", t["dst"]), bad=bad + [("exit", f"the counter gives up ({t['dst']})")])
+    try:
+        rets = _returned(ts, t, env, mem)
+    except Undefined as e:
+        return dict(res=("undefined", str(e)), bad=bad + [("undefined", str(e))])
+    out = {}
+    heights = {}
+    for role, stop, cols, cap in rets:
         if cap < 0:
-            return ("gives up", f"a table of {cap} rows")
-        stop = max(cap + stop, 0) if stop < 0 else min(stop, cap)          # a[:stop] as Python / numpy read it
-        cells = []
-        for i in range(stop * cols):
-            c = m.mem.get(role, {}).get(i)
-            cells.append(c)
+            return dict(res=("gives up", f"a table of {cap} rows"), bad=bad + [("exit", f"a table of {cap} rows")])
+        cells = [mem.get(role, {}).get(i) for i in range(stop * cols)]
         out[role] = (stop, cols, cells)
-    return ("tables", out)
+        heights[role] = stop
+        written = set(mem.get(role, {}))
+        want = set(range(stop * cols))
+        if written != want:
+            bad.append(("exit", f"{role}: {stop} rows returned, cells written: {sorted(written)[:12]}{'...' if len(written) > 12 else ''}"))
+        elif role == "rf" and cols == 3:
+            tot = sum(mem[role][3 * r + 2] for r in range(stop)) if stop else 0
+            if 2 * tot != L - 1:
+                bad.append(("exit", f"the counts of the returned rows sum to {tot}, not (L - 1) / 2 = {(L - 1) / 2}"))
+    if len(set(heights.values())) > 1:
+        bad.append(("exit", f"tables of different height: {heights}"))
+    return dict(res=("tables", out), bad=bad)
+
+
+def _wkey(w):
+    return tuple("nan" if x != x else x for x in w)
+
+
+def observed(ts, key, w, cache):
+    if cache is None or key is None:
+        return observe(ts, w)
+    ck = (key, _wkey(w))
+    if ck not in cache:
+        cache[ck] = observe(ts, w)
+    return cache[ck]
 
 
 def _same_cell(x, y):
@@ -222,35 +346,34 @@ def _rows(t):
 
 
 def witness(ts_a, ts_b, only=None, cache=None, ka=None, kb=None):
-    """the first input of the finite world on which the two systems hand back different tables: dict(input, left, right), or None.
-    `cache`: {(key, input): result} shared between the rules of one run"""
-    cache = {} if cache is None else cache
-
-    def res(ts, key, w):
-        ck = (key, only and tuple(sorted(only)), tuple("nan" if x != x else x for x in w))
-        if key is None or ck not in cache:
-            try:
-                r = result(ts, w, only)
-            except Undefined as e:
-                r = ("undefined", str(e))
-            if key is None:
-                return r
-            cache[ck] = r
-        return cache[ck]
-    nworld = 0
+    """the first input of the finite world on which the two systems hand back different tables (restricted to the tables named in `only`):
+    dict(input, left returns, right returns), or None.  `cache`: runs shared between the rules of one checker run"""
+    def show(r):
+        return r[1] if r[0] != "tables" else {role: _rows(t) for role, t in r[1].items() if only is None or role in only}
     for w in worlds():
-        ra, rb = res(ts_a, ka, w), res(ts_b, kb, w)
+        ra, rb = observed(ts_a, ka, w, cache)["res"], observed(ts_b, kb, w, cache)["res"]
         if ra[0] == "undefined" or rb[0] == "undefined":
             continue
-        nworld += 1
         diff = ra[0] != rb[0]
         if not diff and ra[0] == "gives up":
             continue
         if not diff:
-            ta, tb = ra[1], rb[1]
+            ta = {r: t for r, t in ra[1].items() if only is None or r in only}
+            tb = {r: t for r, t in rb[1].items() if only is None or r in only}
             diff = set(ta) != set(tb) or any(ta[r][0] != tb[r][0] or not all(_same_cell(x, y) for x, y in zip(ta[r][2], tb[r][2])) for r in ta)
         if diff:
-            def show(r):
-                return r[1] if r[0] != "tables" else {role: _rows(t) for role, t in r[1].items()}
-            return {"input": ["nan" if x != x else x for x in w], "left returns": show(ra), "right returns": show(rb)}
+            return {"input": list(_wkey(w)), "left returns": show(ra), "right returns": show(rb)}
     return None
+
+
+def r4_witness(ts, cats, cache=None, key=None):
+    """{category: dict(input, what)} for the categories of `cats` that some input of the finite world violates (C05-R4 in the finite world: what
+    the abstract interpretation could not derive is a VIOLATION only when some input really breaks it)"""
+    found = {}
+    for w in worlds():
+        if all(c in found for c in cats):
+            break
+        for c, text in observed(ts, key, w, cache)["bad"]:
+            if c in cats and c not in found:
+                found[c] = {"input": list(_wkey(w)), "what": text}
+    return found
